@@ -20,7 +20,7 @@ from concurrent.futures import ThreadPoolExecutor
 from props import sitegen
 
 LEVEL = "proof"
-FILES = ["Base/Sites.v", "C03/SiteClass.v", "Gen/EnvSites.v", "C03/Props.v"]
+FILES = ["Base/Sites.v", "C03/SiteClass.v", "Gen/EnvSites.v", "Engine/Engine.v", "Engine/Script.v", "Engine/Shift.v", "Engine/ShiftRun.v", "C03/Props.v"]
 ENVS = [("0", 0), ("1", 0), ("4242", 3)]
 
 TRUSTED = [
